@@ -585,8 +585,10 @@ def _evaluate(ctx, cases):
         if 'raise' in obs:
             small = shrink_absent(case, obs['raise'])
             sab = absent(small)
+            names = dict(titl='title text')
             ctx.fail(f'C18|total|absent={"+".join(sab) if sab else "none"}|{obs["raise"]}',
-                     f'to_cif() raised {obs["raise"]} ({obs["raise_msg"]}) for a valid file without {", ".join(k.upper() for k in sab) or "(nothing absent)"}',
+                     f'to_cif() raised {obs["raise"]} ({obs["raise_msg"]}) for a valid file ' +
+                     ('without ' + ', '.join(names.get(k, k.upper()) for k in sab) if sab else 'with every optional instruction present'),
                      dict(case=small, stream='total', expected='a CIF file', actual=obs['raise'], model=vals['model']))
             continue
         if isinstance(vals['model'], dict) and 'raise' in vals['model']:
@@ -829,6 +831,15 @@ def run(ctx):
     for k in ['zerr', 'temp', 'size', 'acta', 'wght', 'rems', 'titl']:
         cases.append(make_case(ctx.rng, setting=ctx.rng.choice(SETTINGS), flags={k: False}))
     cases.append(make_case(ctx.rng, flags=dict(zerr=True, temp=False, size=False, acta=False, wght=False, rems=False, titl=True)))
+    # the inputs of the repaired defects C18_5 (element count >= 1000) and C18_6 (U22..U12 cancel), always present
+    c = make_case(ctx.rng, setting=SETTINGS[0], flags={})
+    c.update(z=1, sfac=['C', 'H', 'Al'], unit=[1536, 2048.5, 12])
+    for a in c['atoms']:
+        a['sfac'] = min(a['sfac'], 3)
+    cases.append(c)
+    c = make_case(ctx.rng, setting=SETTINGS[3], flags={})
+    c['atoms'] = [dict(name='C1', sfac=1, xyz=[0.1, 0.2, 0.3], code=11.0, u=[0.02] + list(CANCELLING[0]), part=0, part_sof=None, resi=0, afix=False)]
+    cases.append(c)
     n = ctx.budget(1500, 25000)
     for _ in range(n):
         cases.append(make_case(ctx.rng))
